@@ -135,6 +135,60 @@ def ensure_build(variant="std"):
         return src
 
 
+def build_iotrace():
+    """the LD_PRELOAD write-trace shim; returns path of the shared object"""
+    out = os.path.join(SCRATCH, "iotrace.so")
+    srcf = os.path.join(HARNESS, "iotrace.c")
+    if os.path.exists(out) and os.path.getmtime(out) >= os.path.getmtime(srcf):
+        return out
+    os.makedirs(SCRATCH, exist_ok=True)
+    rc, o = sh("gcc -O1 -shared -fPIC -o %s %s -ldl" % (out, srcf), timeout=120)
+    if rc != 0:
+        raise RuntimeError("iotrace build failed: " + o[-2000:])
+    return out
+
+
+def read_iotrace(path):
+    """returns list of events: ('W', off, data) | ('F',) | ('T', len) | ('O', flags) | ('C',) | ('A', off, len)"""
+    ev = []
+    if not os.path.exists(path):
+        return ev
+    d = open(path, "rb").read()
+    i = 0
+    while i + 17 <= len(d):
+        op = chr(d[i])
+        off = int.from_bytes(d[i + 1:i + 9], "little")
+        ln = int.from_bytes(d[i + 9:i + 17], "little")
+        i += 17
+        if op == "W":
+            ev.append(("W", off, d[i:i + ln]))
+            i += ln
+        elif op == "F":
+            ev.append(("F",))
+        elif op == "T":
+            ev.append(("T", off))
+        elif op == "O":
+            ev.append(("O", off))
+        elif op == "C":
+            ev.append(("C",))
+        elif op == "A":
+            ev.append(("A", off, ln))
+    return ev
+
+
+def traced(cmd, watch, log, env=None, timeout=300, fail_at=None):
+    """run cmd with the write-trace shim watching file [watch]"""
+    so = build_iotrace()
+    if os.path.exists(log):
+        os.unlink(log)
+    e = dict(env or {})
+    e.update({"LD_PRELOAD": so, "IOTRACE_PATH": watch, "IOTRACE_LOG": log})
+    if fail_at:
+        e["IOTRACE_FAIL_AT"] = str(fail_at)
+    rc, out = sh(cmd, env=e, timeout=timeout)
+    return rc, out, read_iotrace(log)
+
+
 def tool_env(src, **extra):
     """environment for running the scratch tools: the tree's own mke2fs.conf, no user config"""
     e = {"MKE2FS_CONFIG": os.path.join(src, "misc", "mke2fs.conf"), "E2FSCK_CONFIG": "/dev/null",
